@@ -11,6 +11,8 @@ trap 'rm -rf "$D"' EXIT
 cp spec/*.tla "$D"/
 rc=0
 for f in "$D"/*.tla; do
+  # modules written for Apalache (EXTENDS Apalache) are parsed by apalache-mc itself when their check runs
+  if grep -q "^EXTENDS.*Apalache" "$f"; then continue; fi
   if ! (cd "$D" && java -cp /opt/veriftools/tla/tla2tools.jar:/opt/veriftools/tla/CommunityModules-deps.jar tla2sany.SANY "$(basename "$f")" >"$D/sany.out" 2>&1); then
     echo "SANY failed on $(basename "$f")"; tail -20 "$D/sany.out"; rc=1
   elif grep -q "^\*\*\* Errors\|Fatal errors\|Could not parse" "$D/sany.out"; then
